@@ -242,6 +242,7 @@ def validate_traces(
             )
         return {
             "fails": out.get("fails", []),
+            "drifts": out.get("drifts", []),
             "n": out["n"],
             "ev": out.get("ev", 0),
             "states": res.distinct,
@@ -288,7 +289,16 @@ class Report:
             for k, v in res.coverage_by_action().items():
                 self.coverage_by_action[k] = self.coverage_by_action.get(k, 0) + v
 
+    def drift(self, what: str) -> None:
+        """The code no longer follows the spec's ALGORITHM model although the
+        property-level clauses hold: reported, never a violation."""
+        self.extra["model_drift"] = self.extra.get("model_drift", 0) + 1
+        if len([n for n in self.notes if n.startswith("MODEL-DRIFT")]) < 5:
+            self.notes.append("MODEL-DRIFT (non-gating): " + what)
+
     def add_trace_result(self, r: Dict[str, Any]) -> None:
+        for d in r.get("drifts", []):
+            self.drift(f"trace/event #{d[0]}: {d[1]}")
         self.states += r["states"]
         self.transitions += r["transitions"]
         self.traces += r["n"]
